@@ -210,8 +210,38 @@ def r6_shared_tables(ctx):
         ctx.check(R, ast.unparse(n.value).startswith(f'{p}.subgraph.'), n, g, n, 'tensor/operator lists of another object than the instruction\'s subgraph are indexed')
 
 
+def r8_uniform_treatment(ctx):
+  R = 'C19.R8'
+  ctx.rule(R, 'plan generation treats every subgraph alike (no branch on the subgraph index or on signature data)', floor=3)
+  targets = ['params_generator:ParamsGenerator.generate_quantization_parameters', 'calibrator:Calibrator._initialize_model_qsvs',
+             'utils.tfl_flatbuffer_utils:buffer_to_tensors', f'{TIG}._create_tensor_name_to_graph_info_map', f'{PERF}._create_op_id_map',
+             'params_generator:ParamsGenerator._check_tensor_names_are_unique']
+  for fq in targets:
+    f = ctx.repo.func(fq)
+    for l in [n for n in common.walk_no_nested(f.node) if isinstance(n, ast.For)]:
+      it = l.iter
+      base = it.args[0] if isinstance(it, ast.Call) and common.call_name(it) == 'enumerate' and it.args else it
+      if not ast.unparse(base).endswith('.subgraphs'):
+        continue
+      ctx.instance(R)
+      idx = l.target.elts[0].id if isinstance(l.target, ast.Tuple) and isinstance(l.target.elts[0], ast.Name) else None
+      sig_names = set()
+      for n in common.walk_no_nested(f.node):
+        if isinstance(n, ast.Assign) and isinstance(n.targets[0], ast.Name) and any(k in ast.unparse(n.value) for k in ('signatureDefs', 'signature', 'entry_subgraph')):
+          sig_names.add(n.targets[0].id)
+      for n in ast.walk(ast.Module(body=l.body, type_ignores=[])):
+        if isinstance(n, (ast.If, ast.IfExp, ast.While)):
+          names = defuse.names_in(n.test)
+          txt = ast.unparse(n.test)
+          bad = (idx is not None and idx in names) or bool(names & sig_names) or 'signatureDefs' in txt
+          ctx.check(R, not bad, n, f, n.test,
+                    f'inside the loop over subgraphs the branch `{txt[:60]}` depends on the subgraph index / signature data: '
+                    'a subgraph is then planned differently from the same subgraph standing alone')
+
+
 def run(ctx):
   r1_performer_indices(ctx)
+  r8_uniform_treatment(ctx)
   _r2(ctx)
   r5_loop_variable_coherence(ctx)
   r6_shared_tables(ctx)
